@@ -211,6 +211,10 @@ MpintCanonical == \A k \in 1..Len(fields) : fields[k].t = "mpint" =>
                        /\ MpintValue(b) = <<fields[k].neg, fields[k].v>>
 \* the spec's decoder inverts the spec's encoder on every value (so either can serve as the oracle)
 CodecInverse == \A k \in 1..Len(fields) : LET r == Read(fields[k].t, Enc(fields[k])) IN r.val = fields[k] /\ r.n = Len(Enc(fields[k]))
+\* step-wise form of the same clauses (what the trace spec evaluates on recorded steps)
+AddLegal == [][(phase' = "write" /\ fields' # fields) =>
+                  WriteClauses(fields'[Len(fields')], SubSeq(wire', Len(wire) + 1, Len(wire'))) = {}]_vars
+GetLegal == [][got' # got => ReadClauses(fields[Len(got')], got'[Len(got')], sofar', rest', wire) = {}]_vars
 \* emitted for spec -> code replay: one case per completely read message
 Emit == (phase = "read" /\ Len(got) = Len(fields)) => PrintT(<<"CASE", fields, ends, wire>>)
 
